@@ -537,17 +537,38 @@ func ruleC18Admit(cx *Ctx) {
 		return false, false
 	}
 	n := 0
-	allInstrs(fn, func(in ssa.Instruction) {
-		ret, ok := in.(*ssa.Return)
-		if !ok || len(ret.Results) != 1 {
+	// the outcomes of admit: each return, and for a result variable (a merge of several assignments) each way into it
+	type outcome struct {
+		val ssa.Value
+		gs  []Guard
+		at  ssa.Instruction
+	}
+	var outcomes []outcome
+	var flatten func(v ssa.Value, gs []Guard, at ssa.Instruction, depth int)
+	flatten = func(v ssa.Value, gs []Guard, at ssa.Instruction, depth int) {
+		if ph, ok := v.(*ssa.Phi); ok && depth < 3 {
+			for i, e := range ph.Edges {
+				pred := ph.Block().Preds[i]
+				flatten(e, append(append([]Guard{}, guardsAt(pred)...), guardsOnEdge(pred, ph.Block())...), at, depth+1)
+			}
 			return
 		}
+		outcomes = append(outcomes, outcome{v, gs, at})
+	}
+	allInstrs(fn, func(in ssa.Instruction) {
+		if ret, ok := in.(*ssa.Return); ok && len(ret.Results) == 1 {
+			flatten(ret.Results[0], guardsAt(ret.Block()), ret, 0)
+		}
+	})
+	for _, oc := range outcomes {
+		ret := oc.at
+		res := oc.val
 		n++
-		gs := guardsAt(ret.Block())
-		if b, isC := constBool(ret.Results[0]); isC {
+		gs := oc.gs
+		if b, isC := constBool(res); isC {
 			if !b {
 				cx.R.OK(rule, name, fmt.Sprintf("return#%d false", n), cx.P.where(ret), "rejecting the candidate is always allowed")
-				return
+				continue
 			}
 			ok := false
 			for _, g := range gs {
@@ -556,10 +577,10 @@ func ruleC18Admit(cx *Ctx) {
 				}
 			}
 			cx.R.Check(ok, rule, name, fmt.Sprintf("return#%d true", n), cx.P.where(ret), "constant true only on freq(candidate) > freq(victim)")
-			return
+			continue
 		}
 		// random admission
-		got := newInliningTermBuilder().of(ret.Results[0]).String()
+		got := newInliningTermBuilder().of(res).String()
 		shape := strings.HasPrefix(got, "==(&(") && strings.Contains(got, "127") && strings.HasSuffix(got, ",0)")
 		warm := false
 		for _, g := range gs {
@@ -572,7 +593,7 @@ func ruleC18Admit(cx *Ctx) {
 			}
 		}
 		cx.R.Check(shape && warm, rule, name, fmt.Sprintf("return#%d random", n), cx.P.where(ret), fmt.Sprintf("random admission is (rand & 127) == 0 and only for freq(candidate) >= %d (got %s)", threshold, got))
-	})
+	}
 	// call site
 	ename := funcName(efm)
 	probation := cx.P.Field("", "policy", "probation")
